@@ -8,7 +8,7 @@ use crate::reference as rf;
 use crate::stubs::{self, sym::*};
 use crate::tp;
 use crate::h::c01::{any_msgs, opt_shape, rsuite};
-use crate::h::p01::{msg_len, program, H2S_EXTRA, MAP_DST_EXTRA};
+use crate::h::p01::{all_dsts_start_with, msg_len, program, H2S_EXTRA, MAP_DST_EXTRA};
 use elliptic_curve::model::{oracle, CAP_LEN};
 use zkryptium::bbsplus::signature::BBSplusSignature;
 
@@ -183,6 +183,7 @@ where
     if EDIT == 0 {
         assert!(o.n == n_prover + r_count + 2, "C03/C10: proof_verify made an unexpected number of oracle queries");
         assert!(same, "C03: verifier's challenge input differs from the prover's (T1/T2/domain/index bookkeeping)");
+        assert!(all_dsts_start_with(n_prover + r_count + 2, &rsuite::<CS>().api_id(false)), "C11: proof_gen / proof_verify hashed something under a DST that does not start with the plain api_id");
         assert!(v.is_ok(), "C03: honest proof rejected");
     } else {
         // the edit must be bound into what the verifier hashes, and then acceptance requires the
